@@ -10,6 +10,7 @@
 //! * open(create+write+truncate): empty file, offset 0; may fail (`OPEN_FAIL`).
 //! * write(buf): transfers k <= buf.len() bytes at the offset, advances the offset, extends
 //!   the length; a write that starts beyond the end zero-fills the gap (POSIX);
+//!   a failing write is reported as Ok(0) -> the real write_all returns Err(WriteZero), see `fail`;
 //!   failure models: `LIMIT` = file-size limit as RLIMIT_FSIZE on Linux (a write straddling
 //!   the limit is short, a write at/after it fails); `BUDGET` = the device accepts that many
 //!   bytes in total, then every write fails (the straddling write is short or fails, `SHORT`);
@@ -35,6 +36,7 @@ static mut BUDGET: usize = NO_LIMIT;
 static mut SHORT: bool = true;
 static mut CHOP: usize = NO_LIMIT;
 static mut OPEN_FAIL: bool = false;
+static mut STORE: bool = true;
 
 extern "C" {
     // models/close_model.c
@@ -46,7 +48,7 @@ extern "C" {
 pub fn reset() {
     unsafe {
         CURSOR = 0; HIGH = 0; OPENS = 0; WRITE_CALLS = 0; FAILED_WRITES = 0;
-        LIMIT = NO_LIMIT; BUDGET = NO_LIMIT; SHORT = true; CHOP = NO_LIMIT; OPEN_FAIL = false;
+        LIMIT = NO_LIMIT; BUDGET = NO_LIMIT; SHORT = true; CHOP = NO_LIMIT; OPEN_FAIL = false; STORE = true;
         kv_close_reset();
     }
 }
@@ -54,19 +56,28 @@ pub fn set_limit(l: usize) { unsafe { LIMIT = l; } }
 pub fn set_budget(b: usize, short: bool) { unsafe { BUDGET = b; SHORT = short; } }
 pub fn set_chop(c: usize) { unsafe { CHOP = c; } }
 pub fn set_open_fail(f: bool) { unsafe { OPEN_FAIL = f; } }
+/// Offsets and length only: the content is not kept (templates that never look at it, with
+/// symbolic faults: byte stores at symbolic offsets are what makes those instances expensive).
+pub fn set_store(f: bool) { unsafe { STORE = f; } }
 
 pub fn len() -> usize { unsafe { HIGH } }
-pub fn byte(i: usize) -> u8 { unsafe { BYTES[i] } }
+pub fn byte(i: usize) -> u8 { unsafe { assert!(STORE, "ghost file: content was not kept"); BYTES[i] } }
 pub fn opens() -> usize { unsafe { OPENS } }
 pub fn write_calls() -> usize { unsafe { WRITE_CALLS } }
 pub fn failed_writes() -> usize { unsafe { FAILED_WRITES } }
 pub fn closes() -> usize { unsafe { kv_close_count() as usize } }
 pub fn last_closed_fd() -> i32 { unsafe { kv_close_last_fd() } }
 
-fn fail() -> io::Error {
+/// A write that cannot transfer anything. It is reported as `Ok(0)` ("no longer able to accept
+/// bytes" in the contract of `Write::write`), which the REAL `write_all` turns into
+/// `Err(ErrorKind::WriteZero)`, and not as `Err(e)`: with a symbolic fault the discriminant of
+/// `write`'s result would be symbolic, symbolic execution would then walk into the drop glue of
+/// io::Error inside `write_all` (on infeasible paths it cannot prune), and that drop glue recurses
+/// through an unresolved indirect call (measured: out of memory). The writers under test never
+/// look at the error value, they only propagate it (`?`) or unwrap it.
+fn fail() -> io::Result<usize> {
     unsafe { FAILED_WRITES += 1; }
-    // a simple (non-boxed) error value: cheap drop glue
-    io::Error::from(io::ErrorKind::Other)
+    Ok(0)
 }
 
 /// `std::fs::OpenOptions::open`
@@ -93,22 +104,24 @@ pub fn ghost_write(_f: &mut File, buf: &[u8]) -> io::Result<usize> {
         let mut k = n;
         if k > CHOP { k = CHOP; }
         if LIMIT != NO_LIMIT {
-            if CURSOR >= LIMIT { return Err(fail()); }
+            if CURSOR >= LIMIT { return fail(); }
             if k > LIMIT - CURSOR { k = LIMIT - CURSOR; }
         }
         if BUDGET != NO_LIMIT {
-            if BUDGET == 0 { return Err(fail()); }
+            if BUDGET == 0 { return fail(); }
             if k > BUDGET {
-                if SHORT { k = BUDGET; } else { BUDGET = 0; return Err(fail()); }
+                if SHORT { k = BUDGET; } else { BUDGET = 0; return fail(); }
             }
             BUDGET -= k;
         }
         assert!(CURSOR <= GHOST_CAP && k <= GHOST_CAP - CURSOR, "ghost file: fixed capacity exceeded");
-        // a write that starts beyond the end leaves a zero-filled gap
-        let mut g = HIGH;
-        while g < CURSOR { BYTES[g] = 0; g += 1; }
-        let mut i = 0;
-        while i < k { BYTES[CURSOR + i] = buf[i]; i += 1; }
+        if STORE {
+            // a write that starts beyond the end leaves a zero-filled gap
+            let mut g = HIGH;
+            while g < CURSOR { BYTES[g] = 0; g += 1; }
+            let mut i = 0;
+            while i < n { if i < k { BYTES[CURSOR + i] = buf[i]; } i += 1; }
+        }
         CURSOR += k;
         if CURSOR > HIGH { HIGH = CURSOR; }
         Ok(k)
@@ -139,4 +152,13 @@ pub fn ghost_seek(_f: &mut File, pos: SeekFrom) -> io::Result<u64> {
 pub fn unwrap_failed_cut(_msg: &str, _error: &dyn core::fmt::Debug) -> ! {
     kani::assume(false);
     loop {}
+}
+
+/// `std::io::Error::is_interrupted` (used by the real `write_all` to retry on EINTR): no error that
+/// the ghost file, the failing sink or the code under test creates has kind `Interrupted`, so the
+/// answer is `false` for every error that exists in these harnesses. Needed because the tag bits
+/// of an io::Error are opaque to symbolic execution: the retry arm (which also DROPS the error,
+/// and that drop glue recurses through an unresolved indirect call) would stay open.
+pub fn never_interrupted(_e: &io::Error) -> bool {
+    false
 }
